@@ -113,7 +113,10 @@ C06Cases ==
         cc(<<40, 64>>, <<33, 64>>, 1), cc(<<66, 30>>, <<66, 40>>, 2), cc(<<5, 16, 8>>, <<5, 16, 9>>, 3), cc(<<2100>>, <<2100>>, 1), cc(<<1, 4100>>, <<1, 4100>>, 1),
         ctor("eye", [dim |-> 33], <<33, 33>>, TEye(33)), ctor("eye", [dim |-> 70], <<70, 70>>, TEye(70)),
         ctor("full", [shape |-> <<70, 64>>, k |-> Q(-7, 2)], <<70, 64>>, Q(-7, 2)), ctor("zeros", [shape |-> <<5, 16, 16, 4>>], <<5, 16, 16, 4>>, Zero),
-        ctor("ones", [shape |-> <<4100>>], <<4100>>, One) >>
+        ctor("ones", [shape |-> <<4100>>], <<4100>>, One),
+        \* the constant -0.0: no rational literal carries a sign of zero, so the term is the unfolded application neg(0)
+        [outs |-> <<TOut(1, <<3, 2>>, [k |-> "a", f |-> "neg", a |-> <<Zero>>]) @@ [signed |-> TRUE]>>] @@ ctor("full", [shape |-> <<3, 2>>, k |-> Zero, negzero |-> TRUE], <<3, 2>>, Zero),
+        [outs |-> <<TOut(1, <<>>, [k |-> "a", f |-> "neg", a |-> <<Zero>>]) @@ [signed |-> TRUE]>>] @@ ctor("full", [shape |-> <<>>, k |-> Zero, negzero |-> TRUE], <<>>, Zero) >>
 
 (* ---- c02: backward rules on large tensors; the root is (result * g) with g untracked, so the upstream gradient is arbitrary ---- *)
 GradShapes == << <<66, 64>>, <<1030>>, <<5, 4, 4, 4, 4>>, <<4100, 2>> >>
